@@ -117,6 +117,7 @@ pub fn c29_apply_results_to_responses() {
             let ok = if hit0 { ok0 } else { ok1 };
             assert!(cnt[s] == 1, "C29:applied_write_not_answered_exactly_once");
             let want = if ok { ClientResponse::WriteSuccess } else { ClientResponse::CasFailure };
+            kani::cover!(what[s] != Some(want), "witness:C29:response_does_not_report_the_outcome_applied_at_its_own_entry");
             assert!(what[s] == Some(want), "C29:response_does_not_report_the_outcome_applied_at_its_own_entry");
             assert!(ls.pending_write_apply.get(&idx[s]).is_none(), "C29:answered_waiter_still_registered");
         } else {
@@ -147,4 +148,80 @@ pub fn c29_step_down_drain() {
     }
     assert!(ls.pending_client_writes.len() == 0, "C29:pending_batch_kept_after_step_down");
     std::mem::forget(ls);
+}
+
+/// lighter variant (stays decidable when the body is rewritten with intermediate collections): two waiters, two results
+#[kani::proof]
+#[kani::unwind(2)]
+pub fn c29_apply_results_two_waiters() {
+    reset_recorders();
+    let mut ls = mk_slice();
+    let i0: u64 = kani::any();
+    kani::assume(i0 >= 1 && i0 < 1000);
+    let i1 = i0 + 1;
+    ls.pending_write_apply.insert(i0, sender(0));
+    ls.pending_write_apply.insert(i1, sender(1));
+    let r0: u64 = kani::any();
+    let ok0: bool = kani::any();
+    let ok1: bool = kani::any();
+    // the first result is for the entry just below the waiters or for the first waiter; the second for the next entry
+    kani::assume(r0 == i0 - 1 || r0 == i0);
+    let r1 = r0 + 1;
+    let results = vec![ApplyResult { index: r0, succeeded: ok0 }, ApplyResult { index: r1, succeeded: ok1 }];
+    let ctx = RaftContext::<CT> { _t: std::marker::PhantomData };
+    let (tx, rx) = mpsc::unbounded_channel::<InternalEvent>();
+    let out = ls.handle_apply_completed(r1, results, &ctx, &tx);
+    assert!(out.is_ok(), "C29:handle_apply_completed_failed");
+    kani::cover!(r0 == i0 - 1, "first_result_has_no_waiter");
+    kani::cover!(r0 == i0, "both_results_have_waiters");
+    let cnt = *SENT_COUNT.r();
+    let what = *SENT_WHAT.r();
+    let idx = [i0, i1];
+    let mut s = 0;
+    while s < 2 {
+        let hit0 = r0 == idx[s];
+        let hit1 = r1 == idx[s];
+        if hit0 || hit1 {
+            let ok = if hit0 { ok0 } else { ok1 };
+            assert!(cnt[s] == 1, "C29:applied_write_not_answered_exactly_once");
+            let want = if ok { ClientResponse::WriteSuccess } else { ClientResponse::CasFailure };
+            kani::cover!(what[s] != Some(want), "witness:C29:response_does_not_report_the_outcome_applied_at_its_own_entry");
+            assert!(what[s] == Some(want), "C29:response_does_not_report_the_outcome_applied_at_its_own_entry");
+        } else {
+            assert!(cnt[s] == 0, "C29:write_answered_without_its_apply_result");
+        }
+        s += 1;
+    }
+    std::mem::forget(ls);
+    std::mem::forget(rx);
+    std::mem::forget(tx);
+}
+
+/// concrete indexes (result for index 5 has no waiter, result for index 6 has one), symbolic outcomes: stays decidable
+/// whatever intermediate collections the body builds, because every length is concrete
+#[kani::proof]
+#[kani::unwind(2)]
+pub fn c29_apply_results_unparked_entry_then_cas() {
+    reset_recorders();
+    let mut ls = mk_slice();
+    ls.pending_write_apply.insert(6, sender(0));
+    ls.pending_write_apply.insert(7, sender(1));
+    let ok0: bool = kani::any();
+    let ok1: bool = kani::any();
+    let results = vec![ApplyResult { index: 5, succeeded: ok0 }, ApplyResult { index: 6, succeeded: ok1 }];
+    let ctx = RaftContext::<CT> { _t: std::marker::PhantomData };
+    let (tx, rx) = mpsc::unbounded_channel::<InternalEvent>();
+    let out = ls.handle_apply_completed(6, results, &ctx, &tx);
+    assert!(out.is_ok(), "C29:handle_apply_completed_failed");
+    kani::cover!(ok0 != ok1, "outcomes_differ");
+    let cnt = *SENT_COUNT.r();
+    let what = *SENT_WHAT.r();
+    assert!(cnt[0] == 1, "C29:applied_write_not_answered_exactly_once");
+    let want = if ok1 { ClientResponse::WriteSuccess } else { ClientResponse::CasFailure };
+    kani::cover!(what[0] != Some(want), "witness:C29:response_does_not_report_the_outcome_applied_at_its_own_entry");
+    assert!(what[0] == Some(want), "C29:response_does_not_report_the_outcome_applied_at_its_own_entry");
+    assert!(cnt[1] == 0, "C29:write_answered_without_its_apply_result");
+    std::mem::forget(ls);
+    std::mem::forget(rx);
+    std::mem::forget(tx);
 }
